@@ -14,9 +14,16 @@ def merge(b,o,t,path):
         import os
         pre=os.path.commonprefix([b,o,t])
         if o.startswith(b) and t.startswith(b): return b+o[len(b):]+t[len(b):]
-        print('MANUAL',path,file=sys.stderr); return o+' '+t[len(os.path.commonprefix([o,t])):]
+        # sentence-level three-way merge: ours' order; drop sentences theirs removed; append sentences theirs added
+        import re
+        sp=lambda x:[y for y in re.split(r'(?<=[.;])\s+',x) if y]
+        bs,os_,ts=sp(b),sp(o),sp(t)
+        out=[x for x in os_ if x in ts or x not in bs]+[x for x in ts if x not in os_ and x not in bs]
+        print('SENTENCE-MERGED',path,file=sys.stderr); return ' '.join(out)
     if isinstance(o,list) and isinstance(t,list):
-        return o+[x for x in t if x not in o]
+        bb=b if isinstance(b,list) else []
+        # three-way: keep ours unless theirs removed it; add what theirs added
+        return [x for x in o if x in t or x not in bb]+[x for x in t if x not in o and x not in bb]
     print('MANUAL',path,file=sys.stderr); return o
 m=merge(b,o,t,[])
 json.dump(m,open(p,'w'),indent=1,ensure_ascii=False); print('merged',p)
